@@ -132,7 +132,17 @@ var (
 	denied  = fixture.Key("ed25519", 1).ID
 )
 
-func cidN(n int) cid.Cid { return fixture.Cid(fmt.Sprintf("c09-%d", n), cid.DagJSON) }
+// cidN: CID number n. Numbers from variantBase on are the same digest as
+// n-variantBase under another codec: a different CID, hence a different entry
+// of the duplicate filter.
+const variantBase = 1000000
+
+func cidN(n int) cid.Cid {
+	if n >= variantBase {
+		return cid.NewCidV1(cid.DagCBOR, fixture.Cid(fmt.Sprintf("c09-%d", n-variantBase), cid.DagJSON).Hash())
+	}
+	return fixture.Cid(fmt.Sprintf("c09-%d", n), cid.DagJSON)
+}
 
 // deliver announces and reports whether the consumer got it (and what).
 func deliver(rc *announce.Receiver, c cid.Cid, p peer.ID, addrs []multiaddr.Multiaddr) (bool, announce.Announce, error) {
@@ -180,6 +190,28 @@ func layer2(t *testing.T, r *vp.Recorder, depth int) {
 		{name: "uncache-oldest", kind: "uncache", cid: func(f []int, _ *int) int { return f[0] }},
 		{name: "uncache-newest", kind: "uncache", cid: func(f []int, _ *int) int { return f[len(f)-1] }},
 		{name: "announce-evicted", kind: "announce", cid: func(_ []int, _ *int) int { return -1 }, peer: allowed},
+		// the same digest as a cached CID under another codec: a CID never seen
+		{name: "announce-other-codec-variant-of-newest", kind: "announce", cid: func(f []int, _ *int) int {
+			if v := f[len(f)-1]; v < variantBase {
+				return v + variantBase
+			} else {
+				return v - variantBase
+			}
+		}, peer: allowed},
+		{name: "announce-other-codec-variant-of-oldest", kind: "announce", cid: func(f []int, _ *int) int {
+			if v := f[0]; v < variantBase {
+				return v + variantBase
+			} else {
+				return v - variantBase
+			}
+		}, peer: allowed},
+		{name: "uncache-other-codec-variant-of-newest", kind: "uncache", cid: func(f []int, _ *int) int {
+			if v := f[len(f)-1]; v < variantBase {
+				return v + variantBase
+			} else {
+				return v - variantBase
+			}
+		}},
 		// the CID that entered the cache last (not the one used last: duplicates
 		// of other CIDs may have been refreshed since)
 		{name: "announce-last-added", kind: "announce", cid: func(_ []int, _ *int) int { return -2 }, peer: allowed},
@@ -696,7 +728,7 @@ func layer4(t *testing.T, r *vp.Recorder, depth int) {
 
 func TestCheck(t *testing.T) {
 	r := vp.New("C09", "model_checking",
-		"three layers, all against one reference model (allow predicate, then an LRU set with refresh-on-hit and explicit removal): (1) the LRU object (test-only export) at capacities 1..3 over capacity+2 strings: every sequence of exactly `depth` update/remove operations, return value and length compared after every step; (2) the real receiver (no pubsub) at its real capacity: a fill prefix of exactly capacity distinct CIDs (three variants: plain, one refreshed in the middle, one un-cached and re-announced) followed by every sequence of <= N operations over {announce oldest / second-oldest / newest / a fresh CID / a fresh CID from a denied peer / the oldest CID from a denied peer / the CID evicted last / the CID added last / a burst of capacity-1 fresh CIDs, un-cache oldest / newest}; after each announcement a consumer calls Next and quiescence in a synctest bubble decides delivered / not delivered; (3) every address list of <= M over 12 addresses (public, private ranges, loopback, unspecified, unique-local, localhost) with filtering on and off; (4) the pubsub path: every sequence of <= K messages over {plain from F, republished by relay R for origin O, republished for a denied origin, plain from a denied peer, republished by a denied relay for O, own republication, malformed payload, direct announcement with resend, repeats of the previous CID}, delivery / non-delivery and attribution decided by quiescence. states = distinct sequences; transitions = operations; traces = sequences executed on the real code.",
+		"three layers, all against one reference model (allow predicate, then an LRU set with refresh-on-hit and explicit removal): (1) the LRU object (test-only export) at capacities 1..3 over capacity+2 strings: every sequence of exactly `depth` update/remove operations, return value and length compared after every step; (2) the real receiver (no pubsub) at its real capacity: a fill prefix of exactly capacity distinct CIDs (three variants: plain, one refreshed in the middle, one un-cached and re-announced) followed by every sequence of <= N operations over {announce oldest / second-oldest / newest / a fresh CID / a fresh CID from a denied peer / the oldest CID from a denied peer / the CID evicted last / the CID added last / a burst of capacity-1 fresh CIDs / the same digest as the newest or the oldest under another codec, un-cache oldest / newest / the other-codec variant of the newest}; after each announcement a consumer calls Next and quiescence in a synctest bubble decides delivered / not delivered; (3) every address list of <= M over 12 addresses (public, private ranges, loopback, unspecified, unique-local, localhost) with filtering on and off; (4) the pubsub path: every sequence of <= K messages over {plain from F, republished by relay R for origin O, republished for a denied origin, plain from a denied peer, republished by a denied relay for O, own republication, malformed payload, direct announcement with resend, repeats of the previous CID}, delivery / non-delivery and attribution decided by quiescence. states = distinct sequences; transitions = operations; traces = sequences executed on the real code.",
 		"reference model is the oracle (trusted, 30 lines)",
 		"pubsub path (layer 4): one libp2p host without transports and one gossipsub topic inside a synctest bubble; messages are injected on the topic under arbitrary author identities; multi-host gossip is not driven",
 		"non-public is judged by net.IP.IsLoopback/IsPrivate/IsUnspecified and the name localhost, independently of go-multiaddr's own classification",
